@@ -120,11 +120,13 @@ def run(pid, tier, seed, do_replay=None):
     # 3. discharge -----------------------------------------------------------------------------------
     from qvc import sums, lemmalib
     axioms = list(plan.extra_axioms)
+    sum_ax = []
     ctx.used_lemmas = set(getattr(ctx, "used_lemmas", ()))
     if sums.uses_sums():
-        axioms += sums.sum_axioms()
+        sum_ax = sums.sum_axioms()
         ctx.used_lemmas |= set(lemmalib.SUM_AXIOM_LEMMAS)
-    smt.discharge(all_obs, extra_axioms=axioms, leaves=leaves_per_ob)
+    smt.discharge(all_obs, extra_axioms=(axioms, sum_ax), leaves=leaves_per_ob)
+    axioms = axioms + sum_ax
 
     # 4. vacuity: hypotheses of (a sample of) obligations must be satisfiable ------------------------
     vac = []
